@@ -677,6 +677,29 @@ impl<F: Read + Write + Seek> Package<F> {
         if self.tables.contains_key(&table_name) {
             already_exists!("Table {:?} already exists", table_name);
         }
+        // A foreign or damaged file can contain leftover catalog rows about a
+        // table of this name; inserting ours next to them would fail half
+        // way, so refuse up front.
+        for catalog_table in [COLUMNS_TABLE_NAME, VALIDATION_TABLE_NAME] {
+            if table_name != catalog_table
+                && self.tables.contains_key(catalog_table)
+            {
+                let rows = self.select_rows(
+                    Select::table(catalog_table).with(
+                        Expr::col("Table")
+                            .eq(Expr::string(table_name.as_str())),
+                    ),
+                )?;
+                if rows.len() > 0 {
+                    already_exists!(
+                        "Table {:?} already contains rows describing a \
+                         table named {:?}",
+                        catalog_table,
+                        table_name
+                    );
+                }
+            }
+        }
         // Build the rows that describe the new table in the catalog tables.
         let columns_rows: Vec<Vec<Value>> = columns
             .iter()
